@@ -68,8 +68,10 @@ class Peer (object):
       if guard > 100000: raise AdapterError("Connection.read does not drain")
     return True
 
-  def handshake (self, dpid, ports, n_buffers=0):
-    """Full handshake; returns True when ConnectionUp should have fired."""
+  def handshake (self, dpid, ports, n_buffers=0, early=b""):
+    """Full handshake; returns True when ConnectionUp should have fired.
+    `early`: bytes the switch sends between its features reply and the
+    barrier reply (e.g. port-status messages)."""
     self.feed(ofwire.enc_message("hello", dict(xid=0)))
     self.sent_messages()
     fr = ofwire.enc_message("features_reply", dict(
@@ -81,5 +83,6 @@ class Peer (object):
       if m["name"] == "barrier_request": bx = m["xid"]
     if bx is None:
       raise AdapterError("no barrier request after features reply")
+    if early: self.feed(early)
     self.feed(ofwire.enc_message("barrier_reply", dict(xid=bx)))
     return True
